@@ -29,3 +29,200 @@ h("C10", "c10::c10_channel", funcs=HDR + ["MessageHeader::rda_redundant_channel"
 h("C10", "c10::c10_size_plain", funcs=HDR + ["MessageHeader::{segmented,segment_count,segment_number,message_size_bytes}"], space="all 2^224 headers", bounds="no loop; complete")
 h("C10", "c10::c10_size_uom", funcs=HDR + ["MessageHeader::{message_size,segment_size,message_size_bytes}", "uom Information::new/get::<byte>"], space="all 2^224 headers", bounds="no loop; complete")
 h("C10", "c10::c10_total", funcs=HDR + ["all MessageHeader accessors"], space="all 2^224 headers", bounds="no loop; complete")
+
+# ------------------------------------------------------------------------------------------- C09
+prop("C09",
+     level_text="Bounded model checking of Sweep::from_radials / Sweep::merge on Vec<Radial> built from symbolic elevation and azimuth numbers: every sequence up to the stated length is covered in one SAT query each; longer sequences are outside the claim (the loop body and its only state, the pending run, are the same for every element).",
+     level_note="Trusted: Kani/CBMC and Kani's model of Vec/alloc and slice::sort (insertion-sort path for < 20 elements). Radials carry no moment data (grouping/merging never looks at it).",
+     outside="from_radials on more than 4 radials, and symbolic elevation *values* beyond one radial (N = 2..=4 run every adjacent-equality pattern with concrete labels); merges larger than 2+2 (quick) / 3+2 (thorough); std's non-insertion sort paths (> 20 elements)")
+FR = ["nexrad_model::data::Sweep::from_radials", "Sweep::{new,radials,elevation_number}", "Radial::new"]
+MG = ["nexrad_model::data::Sweep::merge", "slice::sort_by_key (std)", "Vec::extend"]
+for n, tier, mem, to in ((0, "quick", 6, 600), (1, "quick", 10, 900)):
+    h("C09", "c09::c09_group_n%d" % n, tier=tier, funcs=FR, space="all sequences of exactly %d radials x all 256^%d elevation-number patterns" % (n, n), bounds="N = %d, unwind %d" % (n, n + 2), mfs=4096, mem=mem, timeout=to)
+for n, ts in ((2, (1, 2)), (3, (1, 2, 3)), (4, (1, 2, 3))):
+    for t in ts:
+        h("C09", "c09::c09_patterns_n%d_t%d" % (n, t), tier="quick" if n < 4 else "thorough", funcs=FR, space="all %d adjacent-equality patterns of %d radials with concrete labels from table %d ([0,1,2,3] / [255,0,255,0] / [1,2,1,3])" % (2 ** (n - 1), n, t), bounds="N = %d, concrete elevation labels (values symbolic only for N <= 1)" % n, mfs=4096, mem=8, timeout=1500)
+h("C09", "c09::c09_merge_1_2", funcs=MG, space="1+2 radials, all azimuth numbers (2^48), any common elevation", bounds="sizes (1,2), unwind 5", mfs=4096, mem=4)
+h("C09", "c09::c09_merge_2_2", funcs=MG, space="2+2 radials, all azimuth numbers (2^64)", bounds="sizes (2,2), unwind 6", mfs=4096, mem=6, timeout=1500)
+h("C09", "c09::c09_merge_3_2", tier="thorough", funcs=MG, space="3+2 radials, all azimuth numbers (2^80)", bounds="sizes (3,2), unwind 7", mfs=4096, mem=30, timeout=3600)
+h("C09", "c09::c09_merge_mismatch_0", funcs=MG, space="all 2^16 elevation pairs, empty sweeps", bounds="unwind 3", mfs=4096, mem=4)
+h("C09", "c09::c09_merge_mismatch_1", funcs=MG, space="all 2^16 elevation pairs x one radial each (any azimuth)", bounds="unwind 4", mfs=4096, mem=4, timeout=1200)
+
+# ------------------------------------------------------------------------------------------- C08
+prop("C08",
+     level_text="Bounded model checking with no bound in play: chrono's date arithmetic on this path is loop-free, so each SAT query covers the accessor's whole domain (65,535 days x 86,400,000 ms, or x 1,440 minutes) at once; the no-panic queries cover every u16/u32 field value.",
+     level_note="Trusted: Kani/CBMC; chrono 0.4 as locked in /repo/Cargo.lock is part of the code under check (compiled, not modelled). Oracle: day number from CE, second of day and nanosecond of the returned value, written in the harness.",
+     outside="other chrono versions; Debug formatting of the date-time")
+for nm, fn, sp in (("msg_header", "MessageHeader::date_time", "ms"), ("drd_header", "digital_radar_data::Header::date_time", "ms"),
+                   ("vol_header", "nexrad_data::volume::Header::date_time", "ms")):
+    h("C08", "c08::c08_%s_exact" % nm, funcs=[fn, "util::get_datetime", "chrono NaiveDate + Duration, NaiveTime + Duration"], space="all d in 1..=65535 x all t < 86,400,000 ms (other struct bytes free)", bounds="no loop; complete", timeout=1800, mem=12)
+    h("C08", "c08::c08_%s_total" % nm, funcs=[fn], space="all day fields x all u32 times", bounds="no loop; complete", timeout=1800, mem=12)
+for nm in ("rda_bypass", "rda_clutter", "cfm_header"):
+    h("C08", "c08::c08_%s_exact" % nm, funcs=["%s generation date_time" % nm, "util::get_datetime"], space="all d in 1..=65535 x all m < 1440 minutes", bounds="no loop; complete", timeout=1800, mem=12)
+h("C08", "c08::c08_rda_total", funcs=["rda_status_data::Message::{bypass_map,clutter_filter_map}_generation_date_time"], space="all u16^4 date/time fields", bounds="no loop; complete", timeout=1800, mem=6)
+h("C08", "c08::c08_cfm_header_total", funcs=["clutter_filter_map::Header::date_time"], space="all u16^2", bounds="no loop; complete", timeout=1800, mem=6)
+
+# ------------------------------------------------------------------------------------------- C04
+prop("C04",
+     level_text="Bounded model checking of each decode entry point on a buffer whose bytes and length are both symbolic (length up to the stated L): no panic, overflow or out-of-bounds on any input, and unwinding assertions show every loop terminates within the bound. Inputs longer than L are outside the claim.",
+     level_note="Trusted: Kani/CBMC and Kani's std models (Vec, Cursor, slice Read). alloc::fmt::format stubbed (error text). <[u8;4] as TryFrom<&[u8]>>::try_from replaced by an assertion-checked copy (dead Err arm of chunks_exact). Memory clause: allocation sizes are count*4 and gates*(word/8) with 16/8-bit factors (bounded by 65535*4 and 65535*31) - read off the code, the allocator itself is not modelled.",
+     outside="inputs longer than L; stack depth; real time; allocator behaviour")
+h("C04", "c04::c04_header", funcs=["decode_message_header"], space="all byte strings of length 0..=40", bounds="L = 40; no loop", mem=10)
+h("C04", "c04::c04_rda_status", funcs=["decode_rda_status_message"], space="all byte strings of length 0..=130", bounds="L = 130", mem=12, mfs=160)
+h("C04", "c04::c04_vcp", funcs=["decode_volume_coverage_pattern"], space="all byte strings of length 0..=168, cut count free in 0..=65535", bounds="L = 168, unwind 5 (<= 3 cuts fit)", mem=16, mfs=200, unwind_is_violation=True, timeout=1800)
+h("C04", "c04::c04_clutter_map", funcs=["decode_clutter_filter_map"], space="all byte strings of length 0..=44, segment and zone counts free", bounds="L = 44, unwind 24", mem=16, unwind_is_violation=True, timeout=1800)
+h("C04", "c04::c04_type31", funcs=["decode_digital_radar_data", "Message::radial", "GenericDataBlock::new"], space="all byte strings of length 0..=104 with block count <= 2; pointers, names, gates, word size free", bounds="L = 104, blocks <= 2, unwind 12", mem=24, mfs=128, unwind_is_violation=True, timeout=2400)
+
+# ------------------------------------------------------------------------------------------- C02
+prop("C02",
+     level_text="Bounded model checking of decode_digital_radar_data on well-formed messages whose every non-structural byte is symbolic: each SAT query proves every header and block field equals the big-endian value at its ICD offset for all values at once (floats by bit pattern), that the block lands under the product its name designates and all others are absent, that gate bytes are intact with length gates x word-bytes, and that the reader stops after the block.",
+     level_note="Trusted: Kani/CBMC and std models. alloc::fmt::format stubbed; <[u8;4] as TryFrom<&[u8]>>::try_from replaced by an assertion-checked copy. Oracle: ICD 2620002W offsets written out in harness/src/c02.rs.",
+     outside="more than 3 blocks in one query; gate counts above 8; overlapping blocks; layouts where a pointer table entry is not 4-byte aligned (irrelevant to the decoder)")
+D31 = ["decode_digital_radar_data", "util::deserialize", "GenericDataBlock::new", "DataBlockId::data_block_name"]
+h("C02", "c02::c02_header_vol", funcs=D31, space="header(32) + VOL(52): all 2^(8*77) values of the free bytes", bounds="1 block; unwind 8", mfs=128, mem=14, timeout=1500)
+h("C02", "c02::c02_elv", funcs=D31, space="header + ELV(12), all free bytes", bounds="1 block; unwind 6", mfs=128, mem=14, timeout=1500)
+h("C02", "c02::c02_rad", funcs=D31, space="header + RAD(28), all free bytes", bounds="1 block; unwind 6", mfs=128, mem=14, timeout=1500)
+for nm in ("ref", "vel", "sw", "zdr", "phi", "rho", "cfp"):
+    h("C02", "c02::c02_%s" % nm, funcs=D31, space="header + moment block %s: all header bytes, gates 0..=4, word size 8|16, all gate bytes" % nm.upper(), bounds="gates <= 4; unwind 10", mfs=128, mem=12, timeout=1500)
+h("C02", "c02::c02_no_blocks", funcs=D31, space="all headers with block count 0", bounds="unwind 3", mfs=128, mem=4)
+
+# ------------------------------------------------------------------------------------------- C11
+prop("C11",
+     level_text="Bounded model checking: the VCP decoder on messages with k declared cuts (every field byte symbolic) and every accessor on a struct whose raw fields are symbolic, so each scaled/bit-field accessor is decided for all 2^16 (2^8) raw values in one query.",
+     level_note="Trusted: Kani/CBMC float bit-blasting. f64::powf replaced by an exact 2^k stub that asserts base 2 and integral k in [-15,0] (CBMC's built-in powf is nondeterministic); alloc::fmt::format stubbed in decoder harnesses. Oracle: ICD offsets / bit positions written in harness/src/c11.rs.",
+     outside="4..=51 cuts in one message beyond k = 5 (per-cut code is identical); uom-typed accessors (thin wrappers over the f64 ones)")
+VCPF = ["decode_volume_coverage_pattern", "util::deserialize"]
+h("C11", "c11::c11_layout_k0", funcs=VCPF, space="all 22-byte headers with count 0", bounds="k = 0", mem=8)
+h("C11", "c11::c11_layout_k1", funcs=VCPF, space="all 68-byte messages with count 1", bounds="k = 1", mfs=80, mem=8)
+h("C11", "c11::c11_layout_k2", funcs=VCPF, space="all 114-byte messages with count 2", bounds="k = 2", mfs=128, mem=12, timeout=1500)
+h("C11", "c11::c11_layout_k3", tier="thorough", funcs=VCPF, space="all 160-byte messages with count 3", bounds="k = 3", mfs=192, mem=16, timeout=2400)
+h("C11", "c11::c11_layout_k5", tier="thorough", funcs=VCPF, space="all 252-byte messages with count 5", bounds="k = 5", mfs=256, mem=24, timeout=3600)
+h("C11", "c11::c11_count_does_not_fit", funcs=VCPF, space="all 114-byte inputs, declared count free in 0..=65535", bounds="frame of 2 cuts; unwind 5", mfs=128, mem=6, timeout=1800, unwind_is_violation=True)
+h("C11", "c11::c11_cut_bits", funcs=["ElevationDataBlock::{super_resolution_control_*, supplemental_data_*, channel_configuration, waveform_type}"], space="all raw field values", bounds="no loop; complete")
+h("C11", "c11::c11_cut_thresholds", funcs=["ElevationDataBlock::*_threshold"], space="all 2^16 raw values per threshold", bounds="no loop; complete")
+h("C11", "c11::c11_cut_angles", funcs=["elevation_data_block::decode_angle", "ElevationDataBlock::{elevation,sector_n_edge,ebc}_angle_degrees"], space="all 2^16 raw values per angle field", bounds="unwind 15 (13-iteration bit loop)", timeout=1200)
+h("C11", "c11::c11_cut_azimuth_rate", funcs=["elevation_data_block::decode_angular_velocity", "ElevationDataBlock::azimuth_rate_degrees_per_second"], space="all 2^16 raw values", bounds="unwind 15", timeout=1200)
+h("C11", "c11::c11_header_bits", funcs=["vcp Header::{vcp_sequencing_*, vcp_supplemental_data_*, pattern_type, pulse_width, doppler_velocity_resolution_meters_per_second}"], space="all raw field values", bounds="no loop; complete")
+
+# ------------------------------------------------------------------------------------------- C12
+prop("C12",
+     level_text="Bounded model checking: the status decoder on all 120-byte messages (every halfword symbolic) and every accessor on a message whose relevant halfword is symbolic, so coded fields, flag bits, scaled values and the 0..=65535 alarm lookup are each decided for all 2^16 values in one query.",
+     level_note="Trusted: Kani/CBMC. Oracle: the value->meaning table of each field's doc comment (ICD Table IV) transcribed in harness/src/c12.rs; for data_transmission_enabled and rda_alarm_summary (doc tables self-contradictory) only 'one bit per accessor, consecutive, documented order' is asserted. rda_status code 64 (second 'Spare') and VCP raw i16::MIN are left unconstrained.",
+     outside="Debug formatting; the static message text of alarm definitions; undocumented codes")
+RDAF = ["decode_rda_status_message", "util::deserialize"]
+h("C12", "c12::c12_layout", funcs=RDAF, space="all 2^960 120-byte messages", bounds="no data-dependent loop; unwind 20 for the harness's 18-spare loop", mfs=128, mem=6, timeout=1500)
+h("C12", "c12::c12_coded_a", funcs=["rda_status_data::Message::{rda_status,operability_status,control_status,auxiliary_power_generator_state,rda_control_authorization,operational_mode,super_resolution_status}"], space="all 2^16 values per coded halfword (asserted on documented codes)", bounds="complete", mem=6, timeout=1500)
+h("C12", "c12::c12_coded_b", funcs=["rda_status_data::Message::{command_acknowledgement,spot_blanking_status,transition_power_source_status,rms_control_status,performance_check_status,controlling_channel}"], space="all 2^16 values per coded halfword", bounds="complete", mem=6, timeout=1500)
+h("C12", "c12::c12_flags", funcs=["ScanDataFlags::*"], space="all 2^16 flag words", bounds="complete", mem=6)
+h("C12", "c12::c12_flags_structural", funcs=["DataTransmissionEnabled::*", "alarm::Summary::*"], space="all 2^16 flag words", bounds="complete", mem=6)
+h("C12", "c12::c12_clutter_mitigation", funcs=["Message::clutter_mitigation_decision_status"], space="all values 0..=63", bounds="unwind 8", mem=6)
+h("C12", "c12::c12_scaled", funcs=["Message::{horizontal_reflectivity_calibration_correction,rda_build_number,volume_coverage_pattern}", "VolumeCoveragePatternNumber::*"], space="all 2^16 raw values", bounds="complete", mem=6, timeout=1500)
+h("C12", "c12::c12_alarm_lookup_1023", funcs=["alarm::get_alarm_message"], space="all codes 0..=1023", bounds="complete on the stated range", mem=12, timeout=1800)
+h("C12", "c12::c12_alarm_lookup_all", tier="thorough", funcs=["alarm::get_alarm_message"], space="all 2^16 codes", bounds="complete", mem=16, timeout=3600)
+h("C12", "c12::c12_alarm_messages_order", funcs=["Message::alarm_messages", "alarm::get_alarm_message"], space="two concrete 14-code layouts (zeros leading/trailing/between, a repeated code)", bounds="unwind 16", mem=10, timeout=1500)
+h("C12", "c12::c12_alarm_messages_symbolic_code", tier="thorough", funcs=["Message::alarm_messages", "alarm::get_alarm_message"], space="one symbolic code 0..=800 between two concrete ones", bounds="unwind 16", mem=16, timeout=3600)
+
+# ------------------------------------------------------------------------------------------- C06
+prop("C06",
+     level_text="Bounded model checking of the container entry points on buffers whose bytes and length are symbolic (every length 0..=L, L between 12 and 40 per entry point, which covers every boundary the code indexes by: 3, 6, 24 bytes and a 4-byte prefix): no panic/overflow/out-of-bounds, loops end (unwinding assertions).",
+     level_note="Trusted: Kani/CBMC and std models of Vec/slice. alloc::fmt::format stubbed where an error value is built. Not encoded: libbz2 (decompress of a record that *is* compressed), Debug formatting machinery, decode_messages on record payloads (that is C04/C03).",
+     outside="lengths above L; corrupted bzip2 streams (FFI); core::fmt; File::scan and Record::messages beyond the compressed/uncompressed gate (decode path: C03/C04)")
+h("C06", "c06::c06_file_records", funcs=["volume::File::records", "volume::split_compressed_records"], space="all byte strings of length 0..=40", bounds="L = 40, unwind 7 (<= 4 records)", mem=4, unwind_is_violation=True, timeout=1500)
+h("C06", "c06::c06_split", funcs=["volume::split_compressed_records"], space="all byte strings of length 0..=20", bounds="L = 20, unwind 7", mem=4, unwind_is_violation=True, timeout=1500)
+h("C06", "c06::c06_record_compressed", funcs=["volume::Record::{from_slice,new,data,compressed}"], space="all byte strings of length 0..=12", bounds="L = 12", mem=4)
+h("C06", "c06::c06_chunk_new", funcs=["aws::realtime::Chunk::{new,data}"], space="all byte strings of length 0..=12", bounds="L = 12", mem=4)
+h("C06", "c06::c06_file_header", funcs=["volume::File::header", "volume::Header::deserialize"], space="all byte strings of length 0..=30", bounds="L = 30", mem=4)
+h("C06", "c06::c06_compressed_record_not_decoded", funcs=["volume::Record::{messages,compressed}"], space="all 12-byte records with the 'BZ' magic", bounds="magic bytes concrete; only the gate before decoding", mem=8)
+h("C06", "c06::c06_uncompressed_record_not_decompressed", funcs=["volume::Record::{decompress,compressed}"], space="all 5-byte records; all 12-byte records whose byte 4 is 'X'", bounds="only the gate before FFI", mem=8)
+
+# ------------------------------------------------------------------------------------------- C05
+prop("C05",
+     level_text="Bounded model checking of File::records on well-formed files built from symbolic size prefixes (signed, any payload bytes) and of the header accessors on all 24-byte headers: tiling, order, byte identity and the 'BZ' predicate are decided for every file within the record-count/size bound.",
+     level_note="Trusted: Kani/CBMC. The bzip2 round-trip clause (decompress(compress(p)) == p) is NOT claimed: libbz2 is C code behind FFI and its compression loops are outside solver reach; the error gates around it are checked in C06.",
+     outside="bzip2 round-trip; more than 3 records or record payloads above 8 bytes; non-ASCII but valid UTF-8 header strings are only required to echo their bytes")
+for k, mem, to in ((0, 8, 600), (1, 10, 900), (2, 12, 1500)):
+    h("C05", "c05::c05_tiling_k%d" % k, funcs=["volume::File::records", "volume::split_compressed_records", "Record::data"], space="all files of %d records, |size| <= 4, any sign, any bytes" % k, bounds="K = %d, unwind 10" % k, mem=mem, timeout=to)
+h("C05", "c05::c05_tiling_k3", tier="thorough", funcs=["volume::File::records", "volume::split_compressed_records"], space="all files of 3 records, |size| <= 8", bounds="K = 3, unwind 14", mem=24, timeout=3600)
+h("C05", "c05::c05_header_fields_ascii", funcs=["volume::Header::{deserialize,tape_filename,extension_number,icao_of_radar,date_time}"], space="all 24-byte headers whose three text fields are ASCII; date/time words free", bounds="unwind 12", mem=8, timeout=1800)
+h("C05", "c05::c05_header_fields", tier="thorough", funcs=["volume::Header::{deserialize,tape_filename,extension_number,icao_of_radar,date_time}"], space="all 2^192 headers", bounds="unwind 12 (9-byte UTF-8 validation)", mem=8, timeout=1800)
+
+# ------------------------------------------------------------------------------------------- C07
+prop("C07",
+     level_text="Bounded model checking of Message::radial / into_radial, GenericDataBlock::decoded_values and MomentData::values: header mapping for all headers (in-range date/time), moment routing for all 2^7 presence subsets, the value rule for all 256 raw bytes over a listed set of scale/offset pairs, plus an SMT (QF_FP) equivalence of the two value formulas' MIR for all finite f32 scale/offset (engine Z).",
+     level_note="Trusted: Kani/CBMC float bit-blasting; z3/cvc5 QF_FP for the Z query. The K value harness ranges over ten listed (scale, offset) pairs because symbolic f32 division does not terminate in CBMC; the Z query covers all finite pairs. 16-bit moments: see known finding.",
+     outside="more than 2 gates per moment in one query; NaN angles in the equality of the two conversions (PartialEq on f32)")
+h("C07", "c07::c07_header_mapping", funcs=["digital_radar_data::Message::{radial,into_radial}", "Header::{date_time,radial_status}", "Radial::new + accessors"], space="all headers with date >= 1, time < 86,400,000 ms, non-NaN angles", bounds="no loop; complete", mem=10, timeout=1500)
+h("C07", "c07::c07_moment_routing", funcs=["Message::{radial,into_radial}", "GenericDataBlock::{moment_data,into_moment_data}", "MomentData::values"], space="all 2^7 presence subsets, 1 gate each", bounds="1 gate per moment; unwind 4", mem=16, timeout=2400)
+h("C07", "c07::c07_values_levels_agree", funcs=["GenericDataBlock::decoded_values", "MomentData::values"], space="all 256 raw bytes x 10 listed (scale, offset) pairs", bounds="1 gate; unwind 4", mem=10, timeout=1800)
+h("C07", "c07::c07_gate_count_word8", funcs=["GenericDataBlock::decoded_values", "MomentData::values"], space="gates 0..=2, any bytes, 8-bit words", bounds="gates <= 2; unwind 5", mem=10, timeout=1500)
+h("C07", "c07::c07_known_word16_witness", witness_for="c07_word16", funcs=["GenericDataBlock::decoded_values", "MomentData::values"], space="1 gate, 16-bit word, any 2 data bytes", bounds="unwind 6", mem=10, timeout=1500)
+
+# ------------------------------------------------------------------------------------------- C19
+prop("C19",
+     level_text="Bounded model checking of get_elevation_from_chunk for all cut lists up to 8 (quick) / 32 (thorough) cuts with symbolic resolution bits and all sequences 1..=200 against an independent cumulative-sum oracle (pointer identity of the returned cut), and of estimate_next_chunk_time without history for all previous sequences 000..999, upload times 1970..2100 and symbolic waveform/channel codes.",
+     level_note="Trusted: Kani/CBMC; chrono compiled, not modelled. The history clause runs the real ChunkTimingStats (std HashMap + VecDeque) with std::hash::RandomState::new stubbed to fixed SipHash keys and concrete characteristics keys (symbolic keys would make the hash symbolic).",
+     outside="histories other than 11 samples under one key plus one under another; get_statistics; cut lists longer than 32; previous chunk without upload time (falls back to Utc::now())")
+h("C19", "c19::c19_elevation_map_le4", funcs=["realtime::get_elevation_from_chunk", "ElevationDataBlock::super_resolution_control_half_degree_azimuth"], space="all cut lists of length 0..=4 x resolution bits x sequences 1..=200", bounds="L <= 4; unwind 6", mem=4)
+h("C19", "c19::c19_elevation_map_le8", funcs=["realtime::get_elevation_from_chunk"], space="all cut lists of length 0..=8 x sequences 1..=200", bounds="L <= 8; unwind 10", mem=4, timeout=1500)
+h("C19", "c19::c19_elevation_map_le32", tier="thorough", funcs=["realtime::get_elevation_from_chunk"], space="all cut lists of length 0..=32 x sequences 1..=200", bounds="L <= 32; unwind 34", mem=24, timeout=3600)
+h("C19", "c19::c19_estimate_default", funcs=["realtime::estimate_next_chunk_time", "get_default_wait_time", "ChunkIdentifier::{sequence,date_time}", "get_elevation_from_chunk"], space="previous sequence 000..=999 x upload time 1970..2100 (s) x 2 cuts with symbolic waveform/channel codes", bounds="2 cuts; unwind 24 (21-char name)", mem=16, timeout=2400)
+
+# ------------------------------------------------------------------------------------------- C16
+prop("C16",
+     level_text="Bounded model checking of the chunk-name parsers and of the successor function on (volume, sequence): all 1000 three-digit sequence strings, all type letters, all volumes 1..=999 in one query each; archive site() on all UTF-8 strings up to 8 bytes.",
+     level_note="Trusted: Kani/CBMC and std's str::split/parse compiled as is. alloc::fmt::format is stubbed to String::new(), therefore the successor's *name* (format!(\"{}-{:03}-{}\")) and with_sequence are NOT covered here; the cycle over 999 x 55 positions follows from the checked one-step function only for the (volume, sequence-class) part. chrono's format-string parser (archive date_time) is outside reach.",
+     outside="successor name formatting and with_sequence (core::fmt), archive Identifier::date_time (chrono strftime parser), strings longer than 8 bytes for site()")
+CI = ["realtime::ChunkIdentifier::{new,sequence,chunk_type,name_prefix,next_chunk}", "str::split / str::parse::<usize> (std)"]
+h("C16", "c16::c16_parse", funcs=CI, space="all 1000 digit triples x all ASCII type letters x volumes 1..=999", bounds="name of 21 chars; unwind 24", mem=12, timeout=1800)
+h("C16", "c16::c16_successor_volume", funcs=CI, space="sequences 055..=999 x volumes 1..=999", bounds="unwind 24", mem=12, timeout=1800)
+h("C16", "c16::c16_successor_sequence", funcs=CI, space="sequences 000..=054 x volumes 1..=999", bounds="unwind 24; name text stubbed", mem=12, timeout=1800)
+h("C16", "c16::c16_parse_total", funcs=CI, space="all ASCII triples in the sequence field", bounds="unwind 24", mem=12, timeout=1800)
+h("C16", "c16::c16_archive_site_total", funcs=["archive::Identifier::{new,site}"], space="all valid UTF-8 strings of 0..=8 bytes", bounds="L = 8; unwind 12", mem=12, timeout=1800)
+
+# ------------------------------------------------------------------------------------------- C15
+prop("C15",
+     level_text="Bounded model checking of the real rotated search (crate-private, reached through the verif-hooks wrapper) on an in-memory bucket whose shape - newest position p and populated count c - is symbolic: for each directory count N one SAT query covers all N x (N+1) shapes, asserting the result is the newest populated directory (none when empty) and that the number of listing requests stays within N + ceil(log2 N) + 2.",
+     level_note="Trusted: Kani/CBMC, Kani's model of async state machines polled once with a no-op waker (futures are ready immediately), VecDeque from std compiled as is. get_latest_volume (S3 listing closure, element count 998, +1 index mapping) is NOT encoded.",
+     outside="N = 999 (production size) and any N above the tier bound; get_latest_volume itself; listings that fail or block")
+for n, tier, mem, to in ((1, "quick", 8, 900), (2, "quick", 10, 900), (3, "quick", 12, 1200), (4, "quick", 16, 1800), (5, "thorough", 24, 3600), (6, "thorough", 36, 5400)):
+    h("C15", "c15::c15_latest_n%d" % n, tier=tier, funcs=["aws::realtime::search::search", "search::should_search_right"], space="all %d x %d bucket shapes for %d directories" % (n, n + 1, n), bounds="N = %d; unwind %d" % (n, 6 + 2 * n), mem=mem, timeout=to)
+
+# ------------------------------------------------------------------------------------------- C03
+prop("C03",
+     level_text="Bounded model checking of decode_messages on streams of up to 2 (quick) / 3 (thorough) messages: 2432-byte frames whose type code ranges over all 256 values and minimal contiguous type-31 messages, with symbolic trailing fragments and truncation points; asserts count, order, header identity, contents kind and error-vs-shorter-list behaviour.",
+     level_note="Trusted: Kani/CBMC; alloc::fmt::format stubbed; frame bodies are concrete zeros (a valid status message and a valid 0-cut VCP) because the body of an opaque type is never interpreted - body field fidelity is C11/C12.",
+     outside="streams longer than 3 messages; frames of types 2/5 with non-zero bodies (C11/C12); Record::messages (one extra call)")
+h("C03", "c03::c03_one_frame_plus_fragment", funcs=["decode_messages", "decode_message_header", "decode_message_contents", "decode_rda_status_message", "decode_volume_coverage_pattern"], space="one 2432-byte frame, all 255 non-31 type codes, symbolic header, trailing fragment of 0..=27 symbolic bytes", bounds="1 message; unwind 30 (28-byte header copy loops of the harness)", mfs=2500, mem=24, timeout=2400)
+
+# ------------------------------------------------------------------------------------------- C13
+prop("C13",
+     level_text="Bounded model checking of decode_clutter_filter_map on well-formed bodies with 0, 1 (quick) and 2 (thorough) elevation segments of 360 azimuth segments each: generation date/time fields, numbering, declared zone counts and the (op code, end range) pairs in order with symbolic zone values; plus every truncation point of a one-segment body is an error.",
+     level_note="Trusted: Kani/CBMC. Zone *counts* are concrete per harness instance (azimuths 0, 1 and 359 carry zones, all others none) so that byte offsets stay concrete; zone values, date and time are symbolic. The date-time *conversion* is C08.",
+     outside="more than 2 elevation segments; other placements of non-empty azimuths; zone counts above 2")
+CFM = ["clutter_filter_map::decode_clutter_filter_map", "util::deserialize", "RangeZone::op_code"]
+h("C13", "c13::c13_structure_s0", funcs=CFM, space="all headers with 0 segments", bounds="S = 0", mem=8)
+h("C13", "c13::c13_structure_s1", funcs=CFM, space="1 segment x 360 azimuths; zones (2,1,2) at azimuths 0,1,359 with symbolic values", bounds="S = 1; unwind 362", mfs=800, mem=24, timeout=3000)
+h("C13", "c13::c13_structure_s2", tier="thorough", funcs=CFM, space="2 segments x 360 azimuths; zones (1,0,2)", bounds="S = 2; unwind 362", mfs=1600, mem=40, timeout=7200)
+h("C13", "c13::c13_truncated", funcs=CFM, space="one declared segment, zero zone counts, every cut point 0..=726", bounds="unwind 362", mfs=800, mem=24, timeout=3000, unwind_is_violation=True)
+h("C04", "c04::c04_type31_one_block_free", funcs=["decode_digital_radar_data", "Message::radial", "GenericDataBlock::new"], space="all 2^(8*74) 76-byte inputs with block count 1: pointer, block type/name, gates, word size free", bounds="fixed length 76, 1 block; unwind 12", mem=16, mfs=128, unwind_is_violation=True, timeout=2400)
+h("C07", "z::c07_value_formula", kind="z", script="smt/z_c07.py", funcs=["GenericDataBlock::decoded_values::{closure#0} (MIR)", "MomentData::values + {closure#0,#1} (MIR)"], space="all 256 raw bytes x all finite f32 scale x all finite f32 offset (levels: every f32 bit pattern)", bounds="loop-free closures: no bound; QF_FP, z3 and cvc5 must agree", mem=6, timeout=1200)
+h("C04", "c04::c04_type31_one_block_ascii_name", funcs=["decode_digital_radar_data", "Message::radial", "GenericDataBlock::new"], space="76-byte inputs, one block at offset 36, block type and ASCII name free (all 2^21 names), gates/word size/rest free", bounds="fixed length 76, 1 block; unwind 12", mem=16, mfs=128, unwind_is_violation=True, timeout=2400)
+
+# ------------------------------------------------------------------------------------------- C01
+prop("C01",
+     level_text="Hard-bounded model checking of the whole File::scan pipeline (records -> split -> Record::compressed/decompress -> Record::messages -> decode_messages -> decode_digital_radar_data -> into_radial -> Sweep::from_radials -> Scan::new) on volumes of one LDM record holding one type-31 radial (symbolic azimuth/elevation numbers, VCP number, date/time, volume header) with or without a metadata frame in front, and on a volume without a VOL block.",
+     level_note="Trusted: Kani/CBMC. libbz2 is replaced by the identity codec 'strip the 4-byte prefix' (Record::decompress stub; records are laid out so that compressed() is really true); alloc::fmt::format and the [u8;4] try_from stubs as in C02. Volumes with two or more radials are outside reach (Vec<Radial> of >= 2 exhausts CBMC), so multi-radial grouping is claimed only in C09 at its bound.",
+     outside="bzip2 itself; two or more radials or records; moment blocks inside a volume (C02/C07); longer elevation sequences (C09)")
+SC = ["volume::File::scan", "File::records", "split_compressed_records", "Record::{compressed,messages}", "decode_messages", "decode_digital_radar_data", "Message::into_radial", "Sweep::from_radials", "Scan::new"]
+h("C01", "c01::c01_one_radial", funcs=SC, space="1 record, 1 radial: all azimuth/elevation numbers, VCP numbers, in-range date/time, volume header bytes", bounds="1 record, 1 radial, VOL only; unwind 8", mfs=4096, mem=24, timeout=3000)
+h("C01", "c01::c01_metadata_then_radial", funcs=SC, space="1 record: RDA status frame (2432 bytes) then 1 radial", bounds="1 record, 1 frame + 1 radial; unwind 8", mfs=4096, mem=30, timeout=3600)
+h("C01", "c01::c01_no_vol_block", funcs=SC, space="1 record, 1 radial without any data block", bounds="unwind 8", mfs=4096, mem=24, timeout=3000)
+
+# ------------------------------------------------------------------------------------------- C14
+prop("C14",
+     level_text="Bounded model checking of summarize::messages on lists of up to 2 (quick) / 3 (thorough) messages whose kinds (radial, status, VCP, other), elevation numbers, opaque type codes and times of day are symbolic, against an independent single-pass reference written in the harness: tiling, spans, maximal runs, singleton status/VCP groups, continuation flag, first/last azimuth and time, collection-time range.",
+     level_note="Trusted: Kani/CBMC. std::hash::RandomState::new stubbed to fixed SipHash keys (the real one calls the OS); alloc::fmt::format stubbed, so the strings inside RDAStatusInfo/VCPInfo are empty and not compared. Radials carry no moment or volume blocks here: per-group data-type counts and the VCP set (HashMap/HashSet inserts with string keys) are not claimed.",
+     outside="lists longer than 3; data-type counts and the VCP set; text of status/VCP info")
+for n, tier, mem, to in ((0, "quick", 8, 900), (1, "quick", 16, 1800), (2, "quick", 24, 2400), (3, "thorough", 40, 7200)):
+    h("C14", "c14::c14_summary_n%d" % n, tier=tier, funcs=["summarize::messages", "summarize::rda::extract_rda_status_info", "summarize::vcp::extract_vcp_info", "MessageHeader::{message_type,date_time}"], space="all lists of %d messages: kinds^%d x elevation numbers x opaque type codes x times of day" % (n, n), bounds="N = %d" % n, mem=mem, timeout=to, mfs=160)
+h("C19", "c19::c19_estimate_history", funcs=["realtime::estimate_next_chunk_time", "ChunkTimingStats::{new,add_timing,get_average_timing,get_average_attempts}", "std HashMap/VecDeque"], space="11 samples under one key (durations 0..=60000 ms, attempts 1..=5, all symbolic) + 1 sample under another key", bounds="exactly 11+1 recorded samples; unwind 24", mem=24, timeout=3600)
